@@ -297,6 +297,24 @@ class Engine:
         kw["solve"] = self._solve_fn
         kw["check"] = self._check_fn
         kw["solver"] = self.solver
+        uk = self.doc.get("update_kind")
+        if uk == "inplace":
+
+            def update(x, dx):
+                x += dx
+                return x
+
+            kw["update"] = update
+            self.log.count("newton:update-in-place")
+        elif uk == "copy":
+
+            def update(x, dx):
+                y = x.copy() if hasattr(x, "copy") else np.array(x, copy=True)
+                y += dx
+                return y
+
+            kw["update"] = update
+            self.log.count("newton:update-copy")
         try:
             res = REAL_NEWTON(*args, **kw)
         except BaseException as e:
